@@ -125,6 +125,49 @@ void reset_alloc_count() { g_allocs = 0; }
 std::vector<Scen>& scenarios() { static std::vector<Scen> v; return v; }
 std::vector<Rej>& rejects() { static std::vector<Rej> v; return v; }
 
+// --- triage of not-OK objects --------------------------------------------------------
+// Polyhedron dumps: re-evaluate the structural part of Polyhedron::OK() (Polyhedron_public.cc)
+// on the text, in the same order, and name the first clause that fails.
+std::string classify_not_ok(const std::string& d) {
+  if (d.compare(0, 10, "space_dim ") != 0 || d.find("\ncon_sys (") == std::string::npos || d.find("\nsat_g") == std::string::npos) return "";
+  std::istringstream in(d); std::string w;
+  long space_dim = -1; in >> w >> space_dim;
+  std::map<std::string, bool> fl;
+  for (int i = 0; i < 10 && (in >> w); ++i) if (w.size() == 3) fl[w.substr(1)] = w[0] == '+';
+  struct Sys { bool up; long rows, cols, pend; bool has_point; Sys() : up(false), rows(0), cols(0), pend(0), has_point(false) {} } cs, gs;
+  long satc_r = 0, satc_c = 0, satg_r = 0, satg_c = 0;
+  std::string line; Sys* cur = 0;
+  while (std::getline(in, line)) {
+    if (line.compare(0, 9, "con_sys (") == 0) { cur = &cs; cur->up = line.find("(up-to-date)") != std::string::npos; }
+    else if (line.compare(0, 9, "gen_sys (") == 0) { cur = &gs; cur->up = line.find("(up-to-date)") != std::string::npos; }
+    else if (line.compare(0, 5, "sat_c") == 0) { std::getline(in, line); sscanf(line.c_str(), "%ld x %ld", &satc_r, &satc_c); cur = 0; }
+    else if (line.compare(0, 5, "sat_g") == 0) { std::getline(in, line); sscanf(line.c_str(), "%ld x %ld", &satg_r, &satg_c); cur = 0; }
+    else if (cur && line.find(" x ") != std::string::npos && (line.find("DENSE") != std::string::npos || line.find("SPARSE") != std::string::npos)) sscanf(line.c_str(), "%ld x %ld", &cur->rows, &cur->cols);
+    else if (cur && line.compare(0, 20, "index_first_pending ") == 0) cur->pend = atol(line.c_str() + 20);
+    else if (cur == &gs && line.compare(0, 5, "size ") == 0 && (line.find(" P ") != std::string::npos || line.find(" P(") != std::string::npos || line.find(" P\n") != std::string::npos || line.rfind(" P") == line.size() - 2)) gs.has_point = true;
+  }
+  const bool ZE = fl["ZE"], EM = fl["EM"], CM = fl["CM"], GM = fl["GM"], CS = fl["CS"], GS = fl["GS"], CP = fl["CP"], GP = fl["GP"], SC = fl["SC"], SG = fl["SG"];
+  (void) ZE; (void) CM; (void) GM;
+  if (EM) { if (CP || GP) return "empty-with-pending"; if (cs.rows && cs.cols != space_dim) return "space_dim-vs-con_sys"; if (cs.rows > 1) return "empty-with-several-constraints"; return "empty-other"; }
+  if (space_dim == 0) return "zero-dim-with-rows-or-pending";
+  if (!CS && !GS) return "nothing-up-to-date";
+  if (CS) {
+    if (cs.cols != space_dim) return "space_dim-vs-con_sys";
+    if (SC && cs.pend != satc_c) return "sat_c-size-vs-con_sys";
+    if (SG && cs.pend != satg_r) return "sat_g-size-vs-con_sys";
+    if (GS && cs.cols != gs.cols) return "con_sys-vs-gen_sys-dimension";
+  }
+  if (GS) {
+    if (gs.cols != space_dim) return "space_dim-vs-gen_sys";
+    if (SC && gs.pend != satc_r) return "sat_c-size-vs-gen_sys";
+    if (SG && gs.pend != satg_c) return "sat_g-size-vs-gen_sys";
+    if (gs.pend == 0) return "gen_sys-all-rows-pending";
+    if (gs.rows && !gs.has_point) return "gen_sys-without-point";
+  }
+  if (CS && cs.pend == 0) return "con_sys-all-rows-pending";
+  return "minimized-flag-or-row-content";
+}
+
 // --- armed section ------------------------------------------------------------------
 static Abandon g_abandon;
 static Weight_Exceeded g_wexc;
